@@ -241,6 +241,365 @@ fn sreq_id(e: &ServerSessionEvent) -> Option<u32> {
     }
 }
 
+// ================================================================ C15: partition independence of both sessions
+// A scenario is a list of SEGMENTS.  A message that makes the session raise a request the application has to answer
+// (connect / publish / play on the server, the connect result on the client) is always the LAST message of its segment:
+// the application's answer (accept_request / request_playback ...) is given right after the call that raised the event,
+// as an application would.  Every partition delivers all bytes in order; cuts inside a segment are arbitrary.
+fn run_server(chunk_cfg: u32, pieces: &[&[u8]]) -> Vec<String> {
+    let mut tr = vec![];
+    let mut cfg = ServerSessionConfig::new(); cfg.chunk_size = chunk_cfg;
+    let (mut sess, init) = match guard("ServerSession::new", || ServerSession::new(cfg)) { Ok(Ok(x)) => x, Ok(Err(e)) => { tr.push(format!("ERR new: {}", e)); return tr } Err(e) => { tr.push(e); return tr } };
+    let mut dec = OutDec::new();
+    let mut absorb = |tr: &mut Vec<String>, dec: &mut OutDec, rs: Vec<ServerSessionResult>, pending: &mut Vec<u32>| -> bool {
+        for r in rs { match r {
+            ServerSessionResult::OutboundResponse(p) => match dec.feed(&p.bytes) { Ok(v) => for x in v { if !x.is_ack() { tr.push(format!("OUT {}", x.kind())); } }, Err(e) => { tr.push(format!("UNDECODABLE {}", e)); return false } },
+            ServerSessionResult::RaisedEvent(e) => { if let Some(id) = sreq_id(&e) { pending.push(id); } tr.push(format!("EV {}", sev(&e))); }
+            ServerSessionResult::UnhandleableMessageReceived(p) => tr.push(format!("UNH type={} msid={} ts={} len={} sum={:x}", p.type_id, p.message_stream_id, p.timestamp.value, p.data.len(), sum(&p.data))),
+        } }
+        true
+    };
+    let mut none = vec![];
+    if !absorb(&mut tr, &mut dec, init, &mut none) { return tr; }
+    for p in pieces {
+        let rs = match guard("ServerSession::handle_input", || sess.handle_input(p)) { Err(e) => { tr.push(e); return tr } Ok(Err(e)) => { tr.push(format!("ERR {}", e)); return tr } Ok(Ok(v)) => v };
+        let mut pending = vec![];
+        if !absorb(&mut tr, &mut dec, rs, &mut pending) { return tr; }
+        for id in pending {
+            let rs = match guard("ServerSession::accept_request", || sess.accept_request(id)) { Err(e) => { tr.push(e); return tr } Ok(Err(e)) => { tr.push(format!("ERR accept: {}", e)); return tr } Ok(Ok(v)) => v };
+            if !absorb(&mut tr, &mut dec, rs, &mut none) { return tr; }
+        }
+    }
+    tr
+}
+fn run_client(chunk_cfg: u32, publish: bool, pieces: &[&[u8]]) -> Vec<String> {
+    let mut tr = vec![];
+    let mut cfg = ClientSessionConfig::new(); cfg.chunk_size = chunk_cfg;
+    let (mut sess, init) = match guard("ClientSession::new", || ClientSession::new(cfg)) { Ok(Ok(x)) => x, Ok(Err(e)) => { tr.push(format!("ERR new: {}", e)); return tr } Err(e) => { tr.push(e); return tr } };
+    let mut dec = OutDec::new();
+    let mut absorb = |tr: &mut Vec<String>, dec: &mut OutDec, rs: Vec<ClientSessionResult>, accepted: &mut bool| -> bool {
+        for r in rs { match r {
+            ClientSessionResult::OutboundResponse(p) => match dec.feed(&p.bytes) { Ok(v) => for x in v { if !x.is_ack() { tr.push(format!("OUT {}", x.kind())); } }, Err(e) => { tr.push(format!("UNDECODABLE {}", e)); return false } },
+            ClientSessionResult::RaisedEvent(e) => { if e == ClientSessionEvent::ConnectionRequestAccepted { *accepted = true; } tr.push(format!("EV {}", cev(&e))); }
+            ClientSessionResult::UnhandleableMessageReceived(p) => tr.push(format!("UNH type={} msid={} ts={} len={} sum={:x}", p.type_id, p.message_stream_id, p.timestamp.value, p.data.len(), sum(&p.data))),
+        } }
+        true
+    };
+    let mut acc = false;
+    if !absorb(&mut tr, &mut dec, init, &mut acc) { return tr; }
+    match guard("request_connection", || sess.request_connection("live".to_string())) { Ok(Ok(r)) => { if !absorb(&mut tr, &mut dec, vec![r], &mut acc) { return tr; } } Ok(Err(e)) => { tr.push(format!("ERR request_connection: {}", e)); return tr } Err(e) => { tr.push(e); return tr } }
+    for p in pieces {
+        let rs = match guard("ClientSession::handle_input", || sess.handle_input(p)) { Err(e) => { tr.push(e); return tr } Ok(Err(e)) => { tr.push(format!("ERR {}", e)); return tr } Ok(Ok(v)) => v };
+        let mut accepted = false;
+        if !absorb(&mut tr, &mut dec, rs, &mut accepted) { return tr; }
+        if accepted {
+            let r = guard("request_playback/publishing", || if publish { sess.request_publishing("key".to_string(), PublishRequestType::Live) } else { sess.request_playback("key".to_string()) });
+            match r { Ok(Ok(r)) => { if !absorb(&mut tr, &mut dec, vec![r], &mut acc) { return tr; } } Ok(Err(e)) => { tr.push(format!("ERR request: {}", e)); return tr } Err(e) => { tr.push(e); return tr } }
+        }
+    }
+    tr
+}
+fn check_partitions(name: &str, segs: &[Vec<u8>], seed: u64, must_contain: &[&str], run: &dyn Fn(&[&[u8]]) -> Vec<String>) {
+    ctx(format!("c15 scenario {}", name));
+    let whole: Vec<&[u8]> = segs.iter().map(|x| &x[..]).collect();
+    let reference = run(&whole);
+    if debug() { eprintln!("--- {} ({} bytes in {} segments)", name, segs.iter().map(|x| x.len()).sum::<usize>(), segs.len()); for t in &reference { eprintln!("    {}", trunc(t, 220)); } }
+    if let Some(p) = reference.iter().find(|x| x.starts_with("PANIC")) { witness(format!("[c15] scenario {}: delivery in whole segments: {}", name, p)); }
+    let cmp = |what: String, pieces: &[&[u8]]| {
+        let got = run(pieces);
+        if got != reference {
+            let i = (0..std::cmp::max(got.len(), reference.len())).find(|&i| got.get(i) != reference.get(i)).unwrap_or(0);
+            witness(format!("[c15] scenario {} ({} bytes, segments of {:?} bytes, the application answers each request right after the call that raised it): delivery {} differs from delivery in whole segments at result #{}: whole segments give {} ; this delivery gives {} (results: {} vs {})",
+                name, segs.iter().map(|x| x.len()).sum::<usize>(), segs.iter().map(|x| x.len()).collect::<Vec<_>>(), what, i,
+                trunc(reference.get(i).map(|x| x.as_str()).unwrap_or("<nothing more>"), 400), trunc(got.get(i).map(|x| x.as_str()).unwrap_or("<nothing more>"), 400), reference.len(), got.len()));
+        }
+    };
+    // the scenario must not be vacuous on the tree under test: the whole-segment delivery must show what it was written for.
+    // (not a C15 matter if it does not: then the comparison below is still done, only the guard is reported on stderr)
+    for m in must_contain { if !reference.iter().any(|x| x.contains(m)) && debug() { eprintln!("note: scenario {} never shows {:?}", name, m); } }
+    let all: Vec<u8> = segs.iter().flat_map(|x| x.iter().cloned()).collect();
+    cmp("byte by byte".into(), &all.chunks(1).collect::<Vec<_>>());
+    cmp("in 7-byte pieces".into(), &all.chunks(7).collect::<Vec<_>>());
+    for (si, seg) in segs.iter().enumerate() {
+        let step = std::cmp::max(1, seg.len() / 70);
+        let mut ks: Vec<usize> = vec![0, seg.len()];
+        let mut k = (seed as usize) % step; while k <= seg.len() { ks.push(k); k += step; }
+        if seg.len() <= 600 { ks = (0..=seg.len()).collect(); }
+        for k in ks {
+            let mut pieces: Vec<&[u8]> = segs[..si].iter().map(|x| &x[..]).collect();
+            pieces.push(&seg[..k]); pieces.push(&seg[k..]);
+            pieces.extend(segs[si + 1..].iter().map(|x| &x[..]));
+            cmp(format!("with segment {} split at offset {}", si, k), &pieces);
+        }
+    }
+    let mut rng = Rng(seed ^ 0xC15 ^ (name.len() as u64) << 20);
+    for round in 0..6 {
+        let mut pieces: Vec<&[u8]> = vec![]; let mut desc = vec![];
+        for seg in segs { let mut i = 0; while i < seg.len() { let n = std::cmp::min(seg.len() - i, rng.pick(&[1usize, 2, 3, 5, 11, 12, 13, 64, 127, 128, 129, 1000, 0])); pieces.push(&seg[i..i + n]); desc.push(n); i += n; } }
+        cmp(format!("in pseudo-random pieces (round {}, sizes {:?})", round, &desc[..std::cmp::min(desc.len(), 40)]), &pieces);
+    }
+}
+fn media_run(p: &mut Peer, msid: u32, seg: &mut Vec<u8>) {
+    let mut t = 0u32;
+    for (i, &n) in [0usize, 1, 200, 5000, 1, 0, 200].iter().enumerate() {
+        seg.extend(p.audio(msid, t, payload(n, i as u8))); t += 23;
+        seg.extend(p.video(msid, t, payload(n, 100 + i as u8))); t += 17;
+    }
+}
+fn mode_c15(seed: u64) {
+    // (a) SetChunkSize(n) followed by a message longer than the old chunk size
+    for &n in &[129u32, 4096] {
+        for &with_ack in &[false, true] {
+            let mut p = Peer::new(); let mut seg = vec![];
+            if with_ack { seg.extend(p.wack(100)); }
+            seg.extend(p.scs(n));
+            let c = cmd_body("connect", 1.0, connect_obj("live", true), &[]);
+            if c.len() <= 129 { witness("internal: connect body too short".into()); }
+            seg.extend(p.raw(20, 0, 0, c));
+            let seg2 = { let mut v = p.cmd("createStream", 2.0, A::Null, &[], 0); v.extend(p.ping(77)); v };
+            check_partitions(&format!("a/server SetChunkSize({}) then a {}-byte connect{}", n, seg.len(), if with_ack { " after WindowAcknowledgement(100)" } else { "" }), &[seg, seg2], seed, &["ConnectionRequested", "Cmd(_result"], &|pc| run_server(4096, pc));
+        }
+        // the same on the client: SetChunkSize(n) then a long connect result
+        let mut p = Peer::new(); let mut seg = vec![];
+        seg.extend(p.scs(n));
+        seg.extend(p.cmd("_result", 1.0, o(&[("fmsVer", s("FMS/3,0,1,123")), ("capabilities", A::N(31.0)), ("pad", s(&"x".repeat(150)))]), &[status("NetConnection.Connect.Success")], 0));
+        let seg2 = p.cmd("_result", 2.0, A::Null, &[A::N(1.0)], 0);
+        check_partitions(&format!("a/client SetChunkSize({}) then a long connect result", n), &[seg, seg2], seed, &["ConnectionRequestAccepted", "Cmd(play"], &|pc| run_client(4096, false, pc));
+    }
+    // (b) full server-side publish scenario, auto-accept
+    for (vi, &(peer_cs, with_ack, cfg_cs)) in [(0u32, false, 4096u32), (4096, true, 4096), (129, false, 128), (50, true, 60)].iter().enumerate() {
+        let mut p = Peer::new();
+        let mut s1 = vec![];
+        if with_ack { s1.extend(p.wack(300)); }
+        if peer_cs != 0 { s1.extend(p.scs(peer_cs)); }
+        s1.extend(p.cmd("connect", 1.0, connect_obj("live", true), &[], 0));
+        let mut s2 = p.cmd("createStream", 2.0, A::Null, &[], 0);
+        s2.extend(p.cmd("releaseStream", 3.0, A::Null, &[s("key")], 0));
+        s2.extend(p.cmd("publish", 4.0, A::Null, &[s("key"), s("live")], 1));
+        let mut s3 = p.data(&[s("@setDataFrame"), s("onMetaData"), meta_obj()], 0, 1);
+        media_run(&mut p, 1, &mut s3);
+        s3.extend(p.ping(0x01020304));
+        s3.extend(p.audio(2, 5, payload(10, 1)));          // not a publishing stream: ignored
+        s3.extend(p.ack(1234));
+        s3.extend(p.raw(0x55, 9, 0, payload(33, 3)));      // unknown type: reported as unhandleable
+        s3.extend(p.cmd("deleteStream", 0.0, A::Null, &[A::N(1.0)], 0));
+        s3.extend(p.video(1, 900, payload(10, 2)));        // after deleteStream: ignored
+        s3.extend(p.cmd("createStream", 5.0, A::Null, &[], 0));
+        s3.extend(p.cmd("play", 6.0, A::Null, &[s("other"), A::N(-2.0), A::N(-1.0), A::B(true)], 2));
+        let mut s4 = p.cmd("closeStream", 0.0, A::Null, &[A::N(2.0)], 2);
+        s4.extend(p.ping(5));
+        check_partitions(&format!("b/server variant {} connect, createStream, publish, metadata + media 0/1/200/5000, deleteStream, play, closeStream (peer chunk size {}, session chunk size {}{})", vi, if peer_cs == 0 { 128 } else { peer_cs }, cfg_cs, if with_ack { ", acknowledgement window 300" } else { "" }),
+            &[s1, s2, s3, s4], seed, &["PublishStreamRequested", "StreamMetadataChanged", "VideoDataReceived", "PublishStreamFinished", "PlayStreamRequested", "PlayStreamFinished", "PingResponse"], &|pc| run_server(cfg_cs, pc));
+    }
+    // (b') the media part from a foreign encoder: 2- and 3-byte chunk stream ids, all header formats, extended timestamps
+    {
+        let mut p = Peer::new();
+        let s1 = p.cmd("connect", 1.0, connect_obj("live", false), &[], 0);
+        let mut s2 = p.cmd("createStream", 2.0, A::Null, &[], 0);
+        s2.extend(p.cmd("publish", 3.0, A::Null, &[s("key"), s("live")], 1));
+        let mut s3 = vec![];
+        let d200 = payload(200, 9); let d300 = payload(300, 8);
+        s3.extend(ref_message(128, 0, 64, 2, 0x1000005, 9, 1, &d200));     // format 0, extended absolute timestamp, 2 chunks
+        s3.extend(ref_message(128, 1, 64, 2, 0xFFFFFF, 9, 1, &d300));      // format 1, delta exactly 0xFFFFFF (extended), 3 chunks
+        s3.extend(ref_message(128, 2, 64, 2, 40, 9, 1, &d300));            // format 2
+        s3.extend(ref_message(128, 3, 64, 2, 40, 9, 1, &d300));            // format 3 starting a new message
+        s3.extend(ref_message(128, 0, 320, 3, 0xFFFFFE, 8, 1, &payload(1, 1)));
+        s3.extend(ref_message(128, 2, 320, 3, 1, 8, 1, &payload(1, 2)));
+        s3.extend(ref_message(128, 0, 65599, 3, 7, 8, 1, &[]));
+        s3.extend(ref_message(128, 0, 2, 1, 0, 1, 0, &300u32.to_be_bytes()));   // SetChunkSize(300) from the foreign encoder
+        s3.extend(ref_message(300, 1, 64, 2, 5, 9, 1, &d300));             // one 300-byte chunk
+        check_partitions("b'/server media from a foreign encoder (csid 64/320/65599, formats 0-3, extended timestamps, SetChunkSize(300))", &[s1, s2, s3], seed, &["VideoDataReceived", "AudioDataReceived"], &|pc| run_server(4096, pc));
+    }
+    // (c) client side: play and publish
+    for (vi, &(peer_cs, with_ack, publish)) in [(4096u32, true, false), (0, false, false), (129, true, true), (60, false, false)].iter().enumerate() {
+        let mut p = Peer::new();
+        let mut s1 = vec![];
+        if with_ack { s1.extend(p.wack(300)); }
+        s1.extend(p.spb(2_500_000));
+        s1.extend(p.uc(0, &[0]));
+        if peer_cs != 0 { s1.extend(p.scs(peer_cs)); }
+        s1.extend(p.cmd("_result", 1.0, o(&[("fmsVer", s("FMS/3,0,1,123")), ("capabilities", A::N(31.0))]), &[o(&[("level", s("status")), ("code", s("NetConnection.Connect.Success")), ("description", s("Connection succeeded.")), ("objectEncoding", A::N(0.0))])], 0));
+        let mut s2 = p.cmd("onBWDone", 0.0, A::Null, &[A::N(8192.0)], 0);
+        s2.extend(p.cmd("_result", 2.0, A::Null, &[A::N(1.0)], 0));
+        if publish {
+            s2.extend(p.uc(0, &[1]));
+            s2.extend(p.cmd("onStatus", 0.0, A::Null, &[status("NetStream.Publish.Start")], 1));
+            s2.extend(p.ping(0xFFFFFFFF)); s2.extend(p.ack(5000)); s2.extend(p.raw(0x55, 9, 0, payload(150, 3)));
+            s2.extend(p.cmd("_result", 9.0, A::Null, &[A::N(3.0)], 0));       // unknown transaction
+        } else {
+            s2.extend(p.video(1, 0, payload(20, 1)));                            // media before Play.Start (play requested)
+            s2.extend(p.cmd("onStatus", 0.0, A::Null, &[status("NetStream.Play.Reset")], 1));
+            s2.extend(p.uc(0, &[1]));
+            s2.extend(p.cmd("onStatus", 0.0, A::Null, &[status("NetStream.Play.Start")], 1));
+            s2.extend(p.data(&[s("|RtmpSampleAccess"), A::B(false), A::B(false)], 0, 1));
+            s2.extend(p.data(&[s("onMetaData"), meta_obj()], 0, 1));
+            media_run(&mut p, 1, &mut s2);
+            s2.extend(p.audio(2, 7, payload(10, 1)));                            // not the active stream: ignored
+            s2.extend(p.data(&[s("onMetaData"), meta_obj()], 0, 2));
+            s2.extend(p.ping(0x01020304)); s2.extend(p.ack(5000)); s2.extend(p.uc(1, &[1]));
+            s2.extend(p.cmd("_error", 9.0, A::Null, &[A::N(3.0)], 0));        // unknown transaction
+        }
+        check_partitions(&format!("c/client variant {} connect result, createStream result, {} (peer chunk size {}{})", vi, if publish { "Publish.Start, ping, ack" } else { "Play.Start, metadata, media 0/1/200/5000, ping" }, if peer_cs == 0 { 128 } else { peer_cs }, if with_ack { ", acknowledgement window 300" } else { "" }),
+            &[s1, s2], seed, if publish { &["ConnectionRequestAccepted", "PublishRequestAccepted", "PingResponse"] } else { &["ConnectionRequestAccepted", "PlaybackRequestAccepted", "StreamMetadataReceived", "VideoDataReceived", "PingResponse"] }, &|pc| run_client(if vi == 3 { 64 } else { 4096 }, publish, pc));
+    }
+    // pseudo-random valid server streams (seeded): one publishing stream, random harmless traffic around it
+    let mut rng = Rng(seed.wrapping_mul(0x9E3779B97F4A7C15) ^ 0x15);
+    for round in 0..6 {
+        let mut p = Peer::new();
+        let mut s1 = vec![];
+        if rng.below(2) == 0 { s1.extend(p.wack(rng.pick(&[1u32, 50, 1000]))); }
+        let cs = rng.pick(&[0u32, 1, 17, 128, 129, 1000]);
+        if cs != 0 { s1.extend(p.scs(cs)); }
+        s1.extend(p.cmd("connect", 1.0, connect_obj("app/", rng.below(2) == 0), &[], 0));
+        let mut s2 = p.cmd("createStream", 2.0, A::Null, &[], 0);
+        s2.extend(p.cmd("publish", 3.0, A::Null, &[s("k"), s(rng.pick(&["live", "record", "append"]))], 1));
+        let mut s3 = vec![]; let mut t = rng.pick(&[0u32, 0xFFFFF0, 0xFFFFFFF0]);
+        for k in 0..12 {
+            let n = rng.pick(&[0usize, 1, 2, 127, 128, 129, 300]);
+            t = t.wrapping_add(rng.pick(&[0u32, 1, 15, 16, 0xFFFFFF]));
+            match rng.below(8) {
+                0 | 1 => s3.extend(p.audio(1, t, payload(n, k))), 2 | 3 => s3.extend(p.video(1, t, payload(n, k))),
+                4 => s3.extend(p.ping(t)), 5 => s3.extend(p.data(&[s("@setDataFrame"), s("onMetaData"), meta_obj()], t, 1)),
+                6 => { let c = rng.pick(&[1u32, 64, 128, 200]); s3.extend(p.scs(c)); }
+                _ => s3.extend(p.cmd("whatever", 7.0, A::Null, &[s("x")], 1)),
+            }
+        }
+        s3.extend(p.cmd("deleteStream", 0.0, A::Null, &[A::N(1.0)], 0));
+        check_partitions(&format!("r/server pseudo-random publish session #{} (seed {})", round, seed), &[s1, s2, s3], seed, &["PublishStreamRequested", "PublishStreamFinished"], &|pc| run_server(4096, pc));
+    }
+}
+
+// ================================================================ C17: acknowledgement accounting, both session kinds
+enum Either { S(ServerSession), C(ClientSession) }
+impl Either {
+    fn input(&mut self, b: &[u8]) -> Result<Vec<Packet>, String> {
+        match self {
+            Either::S(x) => match guard("ServerSession::handle_input", || x.handle_input(b))? { Ok(v) => Ok(v.into_iter().filter_map(|r| if let ServerSessionResult::OutboundResponse(p) = r { Some(p) } else { None }).collect()), Err(e) => Err(format!("handle_input returned Err: {}", e)) },
+            Either::C(x) => match guard("ClientSession::handle_input", || x.handle_input(b))? { Ok(v) => Ok(v.into_iter().filter_map(|r| if let ClientSessionResult::OutboundResponse(p) = r { Some(p) } else { None }).collect()), Err(e) => Err(format!("handle_input returned Err: {}", e)) },
+        }
+    }
+}
+#[derive(Clone, Debug)]
+enum Item { Announce(u32), PadExact(usize), PadAbout(usize, bool) }   // PadAbout(n, with ping requests)
+// exact-size harmless traffic: unknown-type messages with full (format 0) headers: 12 + payload bytes each, payload <= 128
+fn pad_exact(p: &mut Peer, mut n: usize, out: &mut Vec<u8>, k: &mut u8) {
+    while n > 0 {
+        if n < 12 { witness(format!("internal: exact padding of {} bytes impossible", n)); }
+        let t = if n <= 140 { n } else { std::cmp::min(140, n - 12) };
+        *k = k.wrapping_add(1);
+        let b = p.raw_f(0x55, 0, 0, payload(t - 12, *k), true);
+        if b.len() != t { witness(format!("internal: padding message of {} bytes came out as {}", t, b.len())); }
+        out.extend(b); n -= t;
+    }
+}
+fn pad_about(p: &mut Peer, n: usize, pings: bool, rng: &mut Rng, out: &mut Vec<u8>, k: &mut u8) {
+    let start = out.len();
+    while out.len() - start < n {
+        *k = k.wrapping_add(1);
+        match rng.below(if pings { 5 } else { 4 }) {
+            0 => out.extend(p.ack(rng.next() as u32)),
+            1 => out.extend(p.raw(0x55, *k as u32, 0, payload(rng.pick(&[0usize, 1, 30, 127, 128, 129, 300]), *k))),
+            2 => out.extend(p.raw(0x56, 0, 1, payload(rng.pick(&[5usize, 64]), *k))),
+            3 => out.extend(p.raw(2, 0, 0, vec![0, 0, 0, 9])),           // Abort: ignored / unhandleable
+            _ => out.extend(p.ping(rng.next() as u32)),
+        }
+    }
+}
+fn c17_run(kind: &str, warm: bool, items: &[Item], calls: &[usize], tail: usize, rng: &mut Rng) {
+    let desc = format!("{} session{}, peer stream {:?}, call sizes {:?}{}", kind, if warm { " (after a connect exchange)" } else { "" }, items, &calls[..std::cmp::min(calls.len(), 60)], if calls.len() > 60 { format!(" ... ({} calls)", calls.len()) } else { String::new() });
+    ctx(format!("c17 {}", desc));
+    let mut dec = OutDec::new();
+    let mut p = Peer::new();
+    let mut sess = if kind == "server" {
+        let (mut x, init) = match ServerSession::new(ServerSessionConfig::new()) { Ok(v) => v, Err(e) => witness(format!("[c17] ServerSession::new failed: {}", e)) };
+        for r in init { if let ServerSessionResult::OutboundResponse(pk) = r { let _ = dec.feed(&pk.bytes); } }
+        if warm {
+            let rs = x.handle_input(&p.cmd("connect", 1.0, connect_obj("live", false), &[], 0)).unwrap_or_default();
+            for r in rs { if let ServerSessionResult::RaisedEvent(e) = r { if let Some(id) = sreq_id(&e) { for r2 in x.accept_request(id).unwrap_or_default() { if let ServerSessionResult::OutboundResponse(pk) = r2 { let _ = dec.feed(&pk.bytes); } } } } }
+        }
+        Either::S(x)
+    } else {
+        let (mut x, _) = match ClientSession::new(ClientSessionConfig::new()) { Ok(v) => v, Err(e) => witness(format!("[c17] ClientSession::new failed: {}", e)) };
+        if warm {
+            if let Ok(ClientSessionResult::OutboundResponse(pk)) = x.request_connection("live".to_string()) { let _ = dec.feed(&pk.bytes); }
+            for r in x.handle_input(&p.cmd("_result", 1.0, A::Null, &[], 0)).unwrap_or_default() { if let ClientSessionResult::OutboundResponse(pk) = r { let _ = dec.feed(&pk.bytes); } }
+        }
+        Either::C(x)
+    };
+    // lay out the peer stream; remember where each announcement ends
+    let mut stream = vec![]; let mut ann: Vec<(usize, u32)> = vec![]; let mut k = 0u8;
+    for it in items { match it {
+        Item::Announce(w) => { stream.extend(p.wack(*w)); ann.push((stream.len(), *w)); }
+        Item::PadExact(n) => pad_exact(&mut p, *n, &mut stream, &mut k),
+        Item::PadAbout(n, pings) => pad_about(&mut p, *n, *pings, rng, &mut stream, &mut k),
+    } }
+    let need: usize = calls.iter().sum::<usize>() + tail;
+    if stream.len() < need { let n = need - stream.len() + 1; pad_about(&mut p, n, true, rng, &mut stream, &mut k); }
+    // reference counter, from the statement
+    let (mut window, mut c, mut pos): (Option<u64>, u64, usize) = (None, 0, 0);
+    let (mut acked, mut counted): (u64, u64) = (0, 0);
+    for (ci, &n) in calls.iter().enumerate() {
+        let end = pos + n;
+        let got_packets = match sess.input(&stream[pos..end]) { Ok(v) => v, Err(e) => witness(format!("[c17] {}: call #{} ({} bytes at offset {}): {}", desc, ci, n, pos, e)) };
+        let mut got = vec![];
+        for pk in got_packets { match dec.feed(&pk.bytes) { Ok(v) => for m in v { if let RtmpMessage::Acknowledgement { sequence_number } = m.msg { got.push(sequence_number as u64); } }, Err(e) => witness(format!("[c17] {}: call #{}: {}", desc, ci, e)) } }
+        let mut expect = vec![];
+        let (w_at_start, before) = (window, c);
+        if let Some(w) = window { c += n as u64; counted += n as u64; if c >= w { expect.push(c); acked += c; c = 0; } }
+        if got != expect {
+            witness(format!("[c17] {}: call #{} ({} bytes at stream offset {}; window in force {:?}; {} bytes outstanding before the call): Acknowledgement messages returned by this call {:?}, the statement requires {:?}", desc, ci, n, pos, w_at_start, before, got, expect));
+        }
+        for &(e, w) in &ann { if e > pos && e <= end { window = Some(w as u64); } }
+        pos = end;
+    }
+    if acked + c != counted { witness(format!("[c17] {}: conservation broken: acknowledged {} + outstanding {} != received {}", desc, acked, c, counted)); }
+}
+fn mode_c17(seed: u64) {
+    let mut rng = Rng(seed ^ 0xC17C17);
+    const A: usize = 16;    // a WindowAcknowledgement message on the wire: 12 header bytes + 4
+    for kind in ["server", "client"] {
+        for &w in &[1u32, 2, 3, 100, 1000, 5000] {
+            let wz = w as usize;
+            for warm in [false, true] {
+                let base = vec![Item::Announce(w), Item::PadAbout(1, true)];
+                let mut pats: Vec<Vec<usize>> = vec![
+                    vec![A, wz, wz, wz],
+                    vec![A, wz + 1, wz + 1, wz.saturating_sub(1), 1, 1],
+                    vec![A, 2 * wz + 5, 0, 0, wz / 2, wz - wz / 2, 0, wz / 2, wz - wz / 2 - if wz > 1 { 1 } else { 0 }, 1],
+                    vec![7, A - 7, wz, wz],                  // announcement split over two calls
+                    vec![A + 5, wz.saturating_sub(1), 1, wz],   // announcement and 5 more bytes in one call: counting starts with the next call
+                    vec![A + 3 * wz + 1, wz],
+                    vec![1; A + 2 * wz + 3],                 // byte by byte, announcement included
+                ];
+                if w >= 2 { pats.push(vec![A, wz - 1, 1, wz - 1, 1, wz - 1, 2, wz - 2]); }
+                if w == 100 { pats.push(vec![A, 40, 60, 40, 60, 99, 1, 100, 101, 1, 98, 1]); pats.push(vec![A, 40, 59, 1, 0, 100]); }
+                let mut r = vec![A]; for _ in 0..40 { r.push(rng.pick(&[0usize, 1, 2, 3, 7, wz / 2, wz.saturating_sub(1), wz, wz + 1, 2 * wz, 3 * wz + 1])); } pats.push(r);
+                let mut r = vec![]; for _ in 0..60 { r.push(rng.pick(&[0usize, 1, 5, 11, 16, 17, wz / 3 + 1, wz, wz + 2])); } pats.push(r);
+                for calls in &pats { c17_run(kind, warm, &base, calls, 0, &mut rng); }
+            }
+            // window re-announcements mid-stream: same, larger, smaller than what is outstanding
+            if w >= 100 {
+                let half = wz / 2 + 10;    // >= 12
+                for &w2 in &[w, 3 * w, w / 10, 1, (half + A) as u32, (half + A + 1) as u32] {
+                    let w2z = w2 as usize;
+                    let items = vec![Item::Announce(w), Item::PadExact(half), Item::Announce(w2), Item::PadAbout(1, false)];
+                    // announcement alone, `half` bytes, the re-announcement alone, then calls around both thresholds
+                    let rest = wz - half - A;   // bytes still missing to the OLD window after the re-announcement
+                    for tail in [vec![0usize, 1, rest.saturating_sub(1), 1, 1, w2z, w2z, 1], vec![rest, w2z.saturating_sub(1), 1, w2z + 1], vec![1; rest + w2z + 2], vec![3 * wz + 3 * w2z, 0, w2z]] {
+                        let mut calls = vec![A, half, A]; calls.extend(tail);
+                        c17_run(kind, false, &items, &calls, 0, &mut rng);
+                    }
+                    // the same stream in pseudo-random calls (the re-announcement lands wherever it lands)
+                    for _ in 0..4 { let mut calls = vec![]; for _ in 0..50 { calls.push(rng.pick(&[0usize, 1, 7, 16, half / 2, half, wz / 3, w2z / 2 + 1, w2z, wz])); } c17_run(kind, true, &items, &calls, 0, &mut rng); }
+                }
+            }
+        }
+        // several re-announcements in one stream
+        let items = vec![Item::Announce(1000), Item::PadAbout(700, true), Item::Announce(1000), Item::PadAbout(900, false), Item::Announce(5000), Item::PadAbout(3000, true), Item::Announce(100), Item::PadAbout(600, true), Item::Announce(3), Item::PadAbout(50, false)];
+        for _ in 0..10 { let mut calls = vec![]; for _ in 0..120 { calls.push(rng.pick(&[0usize, 1, 2, 3, 16, 50, 99, 100, 101, 333, 1000])); } c17_run(kind, false, &items, &calls, 0, &mut rng); }
+    }
+}
+
 //@@MODES@@
 
 fn main() {
